@@ -7,6 +7,7 @@ import (
 	"path/filepath"
 	"sort"
 	"strings"
+	"syscall"
 
 	"github.com/fsnotify/fsnotify"
 )
@@ -264,6 +265,22 @@ func runRecur(r *rec, g *rng, tier, what, replay, out string, extra map[string]i
 					continue
 				}
 				dst := filepath.Join(cands[sg.intn(len(cands))], names[sg.intn(len(names))])
+				if sg.chance(30) { // onto an existing (empty) directory of the tree: rename(2) replaces it
+					dst = cands[sg.intn(len(cands))]
+					if strings.HasPrefix(d, dst+"/") || dst == filepath.Join(root, top) {
+						continue
+					}
+					if ents, err := os.ReadDir(dst); err != nil || len(ents) != 0 {
+						continue
+					}
+					if syscall.Rename(d, dst) != nil {
+						continue
+					}
+					step = "rename-onto " + d + " " + dst
+					hist = append(hist, step)
+					alive = s.pumpRec(step, []string{d, dst}, s.covered(filepath.Dir(d)), s.covered(filepath.Dir(d)))
+					continue
+				}
 				if _, err := os.Lstat(dst); err == nil {
 					continue
 				}
